@@ -85,8 +85,25 @@ func (s *Server) FreshDB() {
 	os.Remove(s.db + "-journal")
 }
 
-// Start launches the process and waits until the HTTP API answers.
+// Start launches the process and waits until the HTTP API answers. A start
+// that dies because one of its ports was taken by an unrelated process in the
+// meantime (other checks may run on this machine) is repeated on new ports.
 func (s *Server) Start() error {
+	var err error
+	for attempt := 0; attempt < 6; attempt++ {
+		err = s.start1()
+		if err == nil || s.Alive() {
+			return err
+		}
+		b, _ := os.ReadFile(s.logPath)
+		if !strings.Contains(string(b), "address already in use") {
+			return err
+		}
+	}
+	return err
+}
+
+func (s *Server) start1() error {
 	s.gen++
 	s.httpAddr, s.grpcAddr, s.pollAddr, s.metrAddr = freePort(), freePort(), freePort(), freePort()
 	s.logPath = filepath.Join(s.dir, fmt.Sprintf("server-%d.log", s.gen))
